@@ -59,6 +59,8 @@
    other ids are ordinary values that must come back unchanged: "a","b", and the markers' neighbours "pinf" "ninf" (+-inf),
    "nz" (-0.0), "fmax" (largest finite real), "z" (0), "m1" (-1; unsigned: all ones), "lo1" "lo3" (min+1, min+3), "hi1" "hi3"
    (max-1, max-3).  Only NaN is unset for reals; only the one marker value of the dtype is unset for integers.
+   Strings "t" "sp" "nl" "tab" "ld" "e" (trailing blanks, one blank, trailing newline, a tab, leading blanks, empty) are ordinary
+   values too: white space is part of a string and must come back.
    "u" is a string (or dictionary key) with a non-ASCII character: datasets hold ASCII byte strings (astype("S")), so every
    collection that would have to store it is refused at write time (plain:nonascii, dict:nonascii; with None / among ragged
    entries strings are refused anyway).  Multi-dimensional ndarray entries carry a memory layout lay in C|F|T|S that no
